@@ -15,8 +15,9 @@ Small, stable API (nothing here imports paramiko at module import time):
     RefPub.verify(data, sigblob) -> (bool, reason)  strict RFC 4253/5656/8709 signature check
     parse_sig(sigblob)           -> (algname_bytes, sig_bytes) or raises refssh.RefError
 
-    exc_bucket(exc)              -> "ExcClass@file.py:function" (innermost frame inside the tree
-                                    under test, i.e. <VERIF_REPO>/paramiko)
+    exc_bucket(exc, line=False)  -> "ExcClass@file.py:function" (innermost frame inside the tree
+                                    under test, i.e. <VERIF_REPO>/paramiko); line=True appends the
+                                    source text of that line: "...:function[source text]"
 
 The reference verifier parses the signature blob strictly (every length field must be exactly
 satisfied, no trailing bytes) and then verifies the decoded value with `cryptography`; integers
@@ -327,12 +328,16 @@ def curve_order(curve):
 # ----------------------------------------------------------------------------- buckets
 
 
-def exc_bucket(exc):
-    """"ExcClass@file.py:function" for the innermost frame inside <repo>/paramiko."""
+def exc_bucket(exc, line=False):
+    """"ExcClass@file.py:function" for the innermost frame inside <repo>/paramiko; with ``line`` the
+    (stripped, <= 60 chars) source text of that frame's line is appended in brackets, which separates
+    several root causes inside one function and is stable against line-number shifts."""
     root = os.path.join(os.path.realpath(core.repo_path()), "paramiko") + os.sep
     where = "outside-paramiko"
     for fs in traceback.extract_tb(exc.__traceback__):
         fn = os.path.realpath(fs.filename)
         if fn.startswith(root):
             where = "%s:%s" % (fn[len(root) :], fs.name)
+            if line:
+                where += "[%s]" % " ".join((fs.line or "").split())[:60]
     return "%s@%s" % (type(exc).__name__, where)
